@@ -11,9 +11,9 @@
    leniently) or buffered for the flattened extension type (then the whole document must be
    strictly parsable and at most 127 levels deep, because serde buffers it).
 
-   Domain note: [lower] is ASCII lowercasing; token_type spellings with cased non-ASCII letters
+   Domain note: [lower_tt] (lib/Lower.v) is to_lowercase on ASCII, Latin-1, basic Cyrillic and Greek capitals except sigma; token_type spellings with other cased letters
    are outside the model (and outside the generators). *)
-From OA Require Import Bytes Json ErrorCodes.
+From OA Require Import Bytes Json Lower ErrorCodes.
 From Coq Require Import ZArith.
 Local Open Scope Z_scope.
 
@@ -88,7 +88,7 @@ Definition token_type_as_ref (t : token_type) : bytes :=
   match t with Bearer => s2b "bearer" | Mac => s2b "mac" | TExtension s => s end.
 (* helpers::deserialize_untagged_enum_case_insensitive *)
 Definition d_token_type (j : json) : option token_type :=
-  match j with JStr s true => Some (token_type_from_str (lower s)) | _ => None end.
+  match j with JStr s true => Some (token_type_from_str (lower_tt s)) | _ => None end.
 
 (* chrono::serde::ts_seconds_option *)
 Definition TS_MAX : Z := 8210266876799.
